@@ -381,8 +381,184 @@ class Gen:
             ops.append("collect")
         return lines + ops + ["drop h2", "drop h3", "drop h5", "collect", "collect", "end"]
 
+    def directed(self, name):
+        """Directed scenarios: small hand-designed templates (randomly parametrised) for interleavings that random
+        programs reach too rarely: a finalizer resurrecting its own object through its own `Weak` when the last
+        pointer is dropped outside a collection; a finalizer run by the collector dropping the last handle of an
+        unrelated live cycle; allocations from callbacks while the buffered-object threshold is exceeded; side
+        records whose last `Weak` is gone before `try_unwrap` / the last `Cc`; nested collections from callbacks of
+        plain drops followed by allocations and `finalize_again`; mixed finalized / unfinalized garbage sets."""
+        r = self.r
+        f = self.p.feat
+        self.fixed_shape = True
+        self.ns, self.nu, self.nwf = 2, 1, (1 if f["weak"] else 0)
+        sp = "%d %d %d" % (self.ns, self.nu, self.nwf)
+        scripts, kinds, ops = {}, {}, []
+        cands = ["mixed", "nestedfin"]
+        if f["fin"]:
+            cands += ["findrop", "bufthr"]
+        if f["weak"]:
+            cands += ["metagone", "metagone"]
+        if f["weak"] and f["fin"]:
+            cands += ["selfres", "selfres", "downroot"]
+        t = r.choice(cands)
+        if f["auto"] and t != "bufthr" and r.random() < 0.7:
+            ops.append("cfg auto 0")
+        if t == "selfres":
+            # fin script: upgrade own weak, store the pointer in the object's own subgraph
+            child = r.random() < 0.5
+            store = r.choice(["movef s f0 h5", "setf s f0 h5 ; drop h5", "movef s f1 h5"]) if not child else \
+                r.choice(["movef s.f0 f0 h5", "setf s.f0 f1 h5 ; drop h5"])
+            scripts[1] = ["up s.w0 h5"] + store.split(" ; ")
+            kinds[1] = "fin"
+            if r.random() < 0.5:
+                ops += ["newcyc h0 %s 0 1 0 0 0" % sp]
+            else:
+                ops += ["new h0 %s 0 1 0" % sp, "down h0 w0", "setw h0 w0 w0"] + (["wdrop w0"] if r.random() < 0.5 else [])
+            if child:
+                ops += ["new h1 %s 0 0 0" % sp, "movef h0 f0 h1"]
+            if r.random() < 0.4:
+                ops += ["clone h0 h2", "drop h2"]          # buffered before
+            if r.random() < 0.3:
+                ops += ["collect"]
+            ops += ["drop h0"] + ["collect"] * r.randrange(1, 4)
+        elif t == "findrop":
+            # the collector runs a finalizer that drops the last handle of a live cycle
+            scripts[1] = r.choice([["drop h3"], ["drop h3", "drop h4"], ["clone h3 h5", "drop h3", "drop h5"]])
+            kinds[1] = "fin"
+            ops += ["new h0 %s 0 1 0" % sp, "new h1 %s 0 %d 0" % (sp, r.randrange(2)), "setf h0 f0 h1", "setf h1 f0 h0"]
+            ops += ["new h3 %s 0 0 0" % sp, "new h4 %s 0 0 0" % sp, "setf h3 f0 h4", "setf h4 f0 h3", "drop h4"]
+            if r.random() < 0.5:
+                ops += ["collect"]
+            ops += ["drop h0", "drop h1"] + ["collect"] * r.randrange(1, 4)
+        elif t == "bufthr":
+            # callbacks buffer live objects and allocate while the buffered-object threshold is exceeded
+            n = r.randrange(1, 3)
+            scripts[1] = sum((["clone h%d h5" % k, "drop h5"] for k in (2, 3, 4)[: n + 1]), []) + ["new h5 %s 0 0 0" % sp] + \
+                (["collect"] if r.random() < 0.3 else [])
+            kinds[1] = "fin"
+            scripts[2] = list(scripts[1])
+            kinds[2] = "drop"
+            if f["auto"]:
+                ops += ["cfg auto 1", "cfg buf %d" % n, "cfg pct 0"]
+            ops += ["new h2 %s 0 0 0" % sp, "new h3 %s 0 0 0" % sp, "new h4 %s 0 0 0" % sp]
+            ops += ["clone h2 h5", "drop h5", "collect"]     # raises the byte threshold above what is allocated
+            which = r.randrange(3)
+            ops += ["new h0 %s 0 %d %d" % (sp, 1 if which != 1 else 0, 2 if which != 0 else 0), "new h1 %s 0 0 0" % sp,
+                    "setf h0 f0 h1", "setf h1 f0 h0"]
+            if r.random() < 0.5:
+                ops += ["drop h1", "drop h0", "collect"]
+            else:
+                ops += ["drop h1", "clrf h0 f0", "drop h0"]   # plain last-owner drop
+            ops += ["collect", "drop h5", "collect"]
+        elif t == "metagone":
+            # side record exists, every Weak is gone: try_unwrap / last drop / collection must still release correctly
+            ops += ["new h0 %s 0 0 0" % sp, "down h0 w0"]
+            if r.random() < 0.5:
+                ops += ["wclone w0 w1", "wdrop w1"]
+            ops += ["wdrop w0"]
+            c = r.random()
+            if c < 0.4:
+                ops += ["unwrap h0"]
+            elif c < 0.6:
+                ops += ["clone h0 h1", "drop h1", "unwrap h0"]
+            elif c < 0.8:
+                ops += ["setf h0 f0 h0", "drop h0", "collect"]
+            else:
+                ops += ["drop h0"]
+            ops += ["new h2 %s 0 0 0" % sp, "down h2 w2", "unwrap h2", "up w2 h3", "wdrop w2", "collect"]
+        elif t == "downroot":
+            # an object that was downgraded once is owned (traced) by a buffered live owner: collections must keep it
+            scripts[1] = []
+            kinds[1] = "fin"
+            fin = r.randrange(2)
+            ops += ["new h0 %s 0 %d 0" % (sp, fin), "new h1 %s 0 %d 0" % (sp, fin), "down h1 w0"]
+            if r.random() < 0.5:
+                ops += ["wdrop w0"]
+            ops += ["setf h0 f0 h1", "drop h1", "clone h0 h2", "drop h2", "collect", "collect", "getf h0 f0 h3", "up w0 h4", "collect"]
+            ops += ["clone h0 h2", "drop h2", "collect", "drop h3", "drop h4", "collect", "getf h0 f0 h3"]
+        elif t == "nestedfin":
+            # a finalizer / destructor run by a plain drop collects, then allocates / re-arms / unwraps
+            body = ["collect"] + r.sample(["new h5 %s 0 1 0" % sp, "finagain h2", "unwrap h2", "new h4 %s 0 0 0" % sp, "collect"], 3)
+            scripts[1] = body
+            kinds[1] = "fin" if f["fin"] else "drop"
+            scripts[2] = []
+            kinds[2] = "fin"
+            ops += ["new h2 %s 0 0 0" % sp]
+            ops += ["new h0 %s 0 %d %d" % (sp, 1 if f["fin"] else 0, 0 if f["fin"] else 1)]
+            if r.random() < 0.5:
+                ops += ["new h1 %s 0 0 0" % sp, "setf h1 f0 h1", "drop h1"]       # garbage for the nested collection
+            ops += ["drop h0", "drop h5", "collect", "drop h4", "collect", "collect"]
+        else:  # mixed: garbage sets mixing finalized and never-finalized members
+            scripts[1] = r.choice([[], ["new h5 %s 0 0 0" % sp], ["clone s.f0 h5"], ["getf s f0 h5"]])
+            kinds[1] = "fin"
+            scripts[2] = ["new h4 %s 0 0 0" % sp, "setf h4 f0 h4"]
+            kinds[2] = "fin"
+            ops += ["new h0 %s 0 %d 0" % (sp, 1 if f["fin"] else 0), "new h1 %s 0 0 0" % sp, "setf h0 f0 h1", "setf h1 f0 h0"]
+            ops += ["drop h0", "drop h1", "collect", "drop h5", "collect"]
+            # an object born in a finalizer joins a fresh cycle
+            ops += ["new h2 %s 0 %d 0" % (sp, 2 if f["fin"] else 0), "setf h2 f0 h2", "drop h2", "collect"]
+            ops += ["new h3 %s 0 %d 0" % (sp, 1 if f["fin"] else 0), "setf h3 f0 h4", "setf h4 f1 h3"]
+            order = ["drop h3", "drop h4"]
+            r.shuffle(order)
+            ops += order + ["collect"] * r.randrange(1, 4)
+        # random tail: a few ordinary operations, then release everything
+        self.scripts, self.script_kind, self.nscripts = scripts, kinds, len(scripts)
+        for _ in range(r.randrange(0, 4)):
+            ops.append(self.op())
+        for k in range(self.nh):
+            if r.random() < 0.85:
+                ops.append("drop h%d" % k)
+        ops += ["collect"] * r.randrange(1, 3)
+        self.scripts, self.script_kind, self.nscripts = scripts, kinds, len(scripts)
+        lines = ["program %s" % name, "consts %s" % self.consts,
+                 "feat fin=%d weak=%d clean=%d auto=%d" % (f["fin"], f["weak"], f["clean"], f["auto"]),
+                 "sizes node=%d map=%d" % (self.sizes["node"], self.sizes["map"]), "tables %d %d %d" % (self.nh, self.nw, self.nk)]
+        for i in sorted(scripts):
+            lines.append("script %d %s" % (i, " ; ".join(scripts[i]) if scripts[i] else "nop"))
+        return lines + ["begin"] + ops + ["end"]
+
+    FORBIDDEN_IN_DROP = ("setf", "movef", "clrf", "takef", "getf", "markalive", "reg", "setw", "clrw")
+
     def program(self, name):
+        """A program whose destructor scripts obey the `Trace` contract (a `Drop` impl must not touch the `Cc` fields
+        of its value): whatever the generators above produced, a `new` that names a script using such operations
+        as its destructor loses that destructor."""
+        lines = self._program(name)
+        bad = set()
+        for l in lines:
+            if l.startswith("script "):
+                t = l.split(" ", 2)
+                body = t[2] if len(t) > 2 else ""
+                for op in body.split(" ; "):
+                    w = op.split()
+                    if w and (w[0] in self.FORBIDDEN_IN_DROP or any(x.startswith("s.f") or x.startswith("s.u") or x == "s" for x in w[1:])):
+                        bad.add(t[1])
+        if not bad:
+            return lines
+
+        def fix(op):
+            w = op.split()
+            if w and w[0] == "new" and len(w) == 8 and w[7] in bad:
+                w[7] = "0"
+            elif w and w[0] == "newcyc" and len(w) == 10 and w[7] in bad:
+                w[7] = "0"
+            return " ".join(w)
+        out = []
+        for l in lines:
+            if l.startswith("script "):
+                t = l.split(" ", 2)
+                out.append("script %s %s" % (t[1], " ; ".join(fix(o) for o in (t[2] if len(t) > 2 else "nop").split(" ; "))))
+            elif l.startswith("new"):
+                out.append(fix(l))
+            else:
+                out.append(l)
+        return out
+
+    def _program(self, name):
         x = self.r.random()
+        if x > 1.0 - getattr(self.p, "directed_p", 0.08):
+            return self.directed(name)
         if x < getattr(self.p, "chain_p", 0.04):
             return self.fin_chain(name)
         if x < getattr(self.p, "scenario_p", 0.3):
